@@ -325,6 +325,15 @@ theorem tables_consistent {o : Opts} {api api' : Api} (hc : api.Consistent) (h :
   obtain ⟨ns, _, rfl⟩ := hns'
   simp [Namespace.Consistent, Namespace.pruned]
 
+/-- What the tables contain, independently of `add_route`: `route_by_name[n]` is the last version-1
+route named `n` in the list, `routes_by_name[n].at_version[v]` the last route named `n` with
+version `v` (for the frontend's lists, where (name, version) is unique: *the* route). -/
+theorem index_lookup (rs : List Route) (n : Name) (v : Int) :
+    (index rs).1.lookup n = lastMatch (fun r => decide (r.name = n) && decide (r.version = 1)) rs ∧
+    ((index rs).2.lookup n).bind (fun d => d.lookup v) =
+      lastMatch (fun r => decide (r.name = n) && decide (r.version = v)) rs :=
+  Cli.index_lookup rs n v
+
 /-- what `index` means: a version-1 route is found under its name, every route under its name and
 version (for a list without repeated (name, version), as the frontend guarantees, later entries
 would win otherwise) -/
